@@ -333,6 +333,18 @@ class Extreme:
         return self
 
 
+class FrameArray:
+    """df.to_numpy(): row i / column j of the frame; `dtype_object` is True iff some column is not numeric."""
+
+    def __init__(self, df: "SymDF"):
+        self.df = df
+        self.columns = list(df.cols)
+        self.dtype_object = any(k.dtype in ("str", "object") for k in df.cols.values())
+
+    def __deepcopy__(self, memo):
+        return self
+
+
 class Loc:
     def __init__(self, df: "SymDF"):
         self.df = df
@@ -630,6 +642,76 @@ class SymDF:
             lab = self.cols[col].val
             newcols = self.cols if kwargs.get("drop") is False else {c: k for c, k in self.cols.items() if c != col}
             return SymDF(self.uni, newcols, self.present, lambda r: lab(r), self.name + "_si", self.order)
+        if attr == "melt":
+            _assume("pandas DataFrame.melt(id_vars, value_vars, var_name, value_name): one output row per (input row, value column), the id columns "
+                    "repeated, var_name = the value column's name (dtype str), value_name = its value; blocks ordered by value column")
+            idv, vv = kwargs.get("id_vars"), kwargs.get("value_vars")
+            vn, valn = kwargs.get("var_name", "variable"), kwargs.get("value_name", "value")
+            if not isinstance(idv, list) or not isinstance(vv, list):
+                raise Unsupported("melt arguments")
+            uni = Universe("melt", self.uni.arity + 1, [self.uni])
+            a = self.uni.arity
+            pres = self.present
+            cols: Dict[str, Col] = {}
+            for c in idv:
+                k = self.cols[c]
+                cols[c] = Col((lambda r, _k=k: _k.val(r[:a])), (lambda r, _k=k: _k.null(r[:a])) if k.null else None, k.dtype)
+            def varval(r):
+                res = z3.StringVal(vv[-1])
+                for i in range(len(vv) - 2, -1, -1):
+                    res = z3.If(r[a] == i, z3.StringVal(vv[i]), res)
+                return res
+            cols[vn] = Col(varval, None, "str")
+            vcols = [self.cols[c] for c in vv]
+            def valval(r):
+                res = to_z3(vcols[-1].val(r[:a]))
+                for i in range(len(vv) - 2, -1, -1):
+                    res = z3.If(r[a] == i, to_z3(vcols[i].val(r[:a])), res)
+                return res
+            cols[valn] = Col(valval, None, vcols[0].dtype)
+            out = SymDF(uni, cols, lambda r: z_and(pres(r[:a]), r[a] >= 0, r[a] < len(vv)), None, "melted", ("melt", self.order))
+            out.melt_values = {vn: list(vv)}
+            return out
+        if attr == "replace":
+            _assume("pandas DataFrame.replace({old: new}): every cell equal to a key is replaced by its value; on pandas 3 a str column whose values are "
+                    "replaced by ints becomes dtype object")
+            mp_ = args[0]
+            if not isinstance(mp_, dict) or not all(isinstance(k, str) for k in mp_):
+                raise Unsupported("replace with non string keys")
+            cols = {}
+            for c, k in self.cols.items():
+                if k.dtype != "str":
+                    cols[c] = k
+                    continue
+                known = getattr(self, "melt_values", {}).get(c)
+                if known is None or not all(v in mp_ for v in known) or not all(isinstance(mp_[v], int) for v in known):
+                    raise Unsupported("replace on a string column whose value set is not fully mapped to ints")
+                def val(r, _k=k):
+                    v = _k.val(r)
+                    res = z3.IntVal(mp_[known[-1]])
+                    for kv in known[:-1][::-1]:
+                        res = z3.If(v == z3.StringVal(kv), z3.IntVal(mp_[kv]), res)
+                    return res
+                cols[c] = Col(val, k.null, "object")
+            return SymDF(self.uni, cols, self.present, self.label, self.name + "_repl", self.order)
+        if attr == "astype":
+            _assume("pandas DataFrame.astype({col: 'int64'}): values unchanged, dtype tag updated")
+            m = args[0] if args else kwargs.get("dtype")
+            if not isinstance(m, dict):
+                raise Unsupported("DataFrame.astype of a non-dict")
+            cols = dict(self.cols)
+            for c, t in m.items():
+                if c not in cols:
+                    ex.oblige(f"astype_keyerror_{c}", pc, False, "astype names a missing column")
+                    continue
+                tag = {"int64": "int", "int": "int", "float64": "float", "float": "float"}.get(t if isinstance(t, str) else getattr(t, "name", ""), None)
+                if tag is None:
+                    raise Unsupported(f"astype target {t!r}")
+                cols[c] = Col(cols[c].val, cols[c].null, tag)
+            return SymDF(self.uni, cols, self.present, self.label, self.name + "_astype", self.order)
+        if attr == "to_numpy":
+            _assume("pandas DataFrame.to_numpy(): 2-d array, one row per frame row, columns in frame order; dtype object unless all columns are numeric")
+            return FrameArray(self)
         if attr == "merge":
             return merge(ex, self, args[0], kwargs, pc)
         if attr == "sort_values":
